@@ -149,7 +149,8 @@ let run line =
     let fl = if fixbits = "-" then [] else String.split_on_char ',' fixbits in
     let has x = Stdlib.List.mem x fl in
     let fx = { fx_count = (fun m -> has "*" || has ("count-" ^ string_of_msite m)); fx_loop = has "*" || has "loop";
-               fx_next = has "*" || has "next"; fx_str = has "*" || has "str"; fx_strmap = has "*" || has "strmap"; fx_refnil = has "*" || has "refnil" } in
+               fx_next = has "*" || has "next"; fx_str = has "*" || has "str"; fx_strmap = has "*" || has "strmap"; fx_refnil = has "*" || has "refnil";
+               fx_strwalk = has "*" || has "strwalk" } in
     let chk = if checked = "*" then (fun _ -> true)
       else if checked = "-" then (fun _ -> false)
       else let l = String.split_on_char ',' checked in (fun h -> Stdlib.List.mem (string_of_site h) l) in
